@@ -51,7 +51,8 @@ pub enum Data {
 
 /// strata: 0 special values mixed with random bit patterns; 1 finite in [0,1]^3; 2 arbitrary bit
 /// patterns; 3 moderately out of range [-2,3]; 4 huge magnitudes; 5 one special value in an
-/// otherwise in-range image
+/// otherwise in-range image; 6 cube corners and half levels (exact 0, 0.5, 1 per component: pure colours
+/// put luma/chroma exactly on the ends of their ranges)
 pub fn expand_floats(stratum: u8, seed: u64, n: usize) -> Vec<[f32; 3]> {
     let mut e = Expand(seed);
     let mut out = Vec::with_capacity(n);
@@ -59,7 +60,8 @@ pub fn expand_floats(stratum: u8, seed: u64, n: usize) -> Vec<[f32; 3]> {
     for i in 0..n {
         let mut p = [0f32; 3];
         for (j, c) in p.iter_mut().enumerate() {
-            *c = match stratum % 6 {
+            *c = match stratum % 7 {
+                6 => *e.pick(&[0.0f32, 1.0, 0.5, 0.0, 1.0]),
                 0 => {
                     if e.below(2) == 0 {
                         f32::from_bits(*e.pick(&SPECIAL_F32))
@@ -119,7 +121,7 @@ pub fn float_kind() -> impl Strategy<Value = Kind> {
 
 /// float histories on supported configs; image size is a multiple of the subsampling factors
 pub fn float_strategy() -> BoxedStrategy<FloatCase> {
-    (supported_cfg(), float_kind(), 1usize..=4, 1usize..=3, 0u8..6, any::<u64>(), prop::collection::vec(any::<u8>(), 1..=4))
+    (supported_cfg(), float_kind(), 1usize..=4, 1usize..=3, 0u8..7, any::<u64>(), prop::collection::vec(any::<u8>(), 1..=4))
         .prop_map(|(cfg, kind, bw, bh, stratum, seed, ops)| FloatCase {
             kind,
             w: bw << cfg.subsampling_x,
